@@ -102,9 +102,28 @@ def rename_case(draw, profile):
     Fs = [F for F in bodies(p) if declared_names(F)]
     if not Fs:
         return {"skip": True}
-    F = draw(st.sampled_from(Fs))
-    mine = declared_names(F)
-    v = draw(st.sampled_from(sorted(set(mine))))
+    # a constructor parameter that carries the name of a field of its class (the `this.x = x` idiom) is the most delicate
+    # thing to rename: everywhere outside the constructor body the bare name still means the field
+    shadowing = []
+    for G in Fs:
+        if G["cls"] and G["name"].endswith(".ctor"):
+            fnames = {f["name"] for c in genclass.ancestors(p["classes"], G["cls"]) for f in c["fields"]}
+            shadowing += [(G, pn) for _, pn in G["params"] if pn in fnames]
+    hot = []
+    for G, pn in shadowing:
+        c = next(c for c in p["classes"] if c["name"] == G["cls"])
+        if any(pn in genclass._bare_vars(f["init"]) for f in c["fields"] if f.get("init") and not f.get("static")):
+            hot.append((G, pn))
+    if hot and draw(st.integers(0, 3)) > 0:
+        F, v = draw(st.sampled_from(hot))
+        mine = declared_names(F)
+    elif shadowing and draw(st.booleans()):
+        F, v = draw(st.sampled_from(shadowing))
+        mine = declared_names(F)
+    else:
+        F = draw(st.sampled_from(Fs))
+        mine = declared_names(F)
+        v = draw(st.sampled_from(sorted(set(mine))))
     # candidate new names: locals/params of OTHER bodies, fields of classes, and a fresh one
     others = set()
     for G in bodies(p):
@@ -116,7 +135,7 @@ def rename_case(draw, profile):
     fresh = "zq7"
     w = draw(st.sampled_from(cands + cands + [fresh])) if cands else fresh
     return {"prog": p, "where": F["where"], "v": v, "w": w, "collides": w != fresh, "profile": profile,
-            "field_collision": w in fields}
+            "field_collision": w in fields, "from_shadowing": bool(F["cls"]) and v in hierarchy_names(p, F["cls"])}
 
 
 class C09(Check):
@@ -125,7 +144,8 @@ class C09(Check):
             "name that is fresh or collides with locals of other functions, fields or parameters elsewhere (capture-free by "
             "construction); non-trivial = the new name collides with a name declared in another body or with a field of some "
             "class, and the program runs to completion; distinct = SHA-1 of (program, F, v, w)")
-    assumptions = ["the generators never give a local the name of a field visible in its own class hierarchy"]
+    assumptions = ["the generators never give a local or a method parameter the name of a field visible in its own class hierarchy; "
+                   "constructor parameters may shadow a field, and inside that constructor every bare use of the name is the parameter"]
     floors = {"__nontrivial__": (800, 15000), "field_collision": (150, 3000)}
 
     def render(self, p):
@@ -168,7 +188,7 @@ class C09(Check):
         if stats is not None:
             ok = o1["rc"] == 0
             tags = [case["profile"]] + (["collides"] if case["collides"] else ["fresh"]) + \
-                   (["field_collision"] if case["field_collision"] else [])
+                   (["field_collision"] if case["field_collision"] else []) + (["renamed_shadowing_parameter"] if case.get("from_shadowing") else [])
             stats.record({"p": p, "w": case["where"], "v": case["v"], "n": case["w"]}, case["collides"] and ok, tags=tags,
                          sample={"renamed": f"{case['v']} -> {case['w']} in {case['where']}", "source": s1} if len(s1) < 1800 else None)
         if o1["diag"] and o1["diag"][0] in ("Lexical", "Parse", "Semantic"):
